@@ -970,6 +970,10 @@ def _check_insert(case, ctx, f, before, klass):
         container = sf.Series(V.to_array(vals, dt), index=f.index, name=name)
     else:
         container = sf.Frame.from_items(((name, V.to_array(vals, dt)) for name, dt, vals in new), index=f.index)
+    if nr >= 2 and (at + nr + len(new)) % 2 == 0:
+        # the same labels in reversed order: the insertion aligns by label, so the expectation below is unchanged
+        container = container.iloc[::-1]
+        klass['inserted_index'] = 'reversed'
     fn = f.insert_after if after else f.insert_before
     out, exc = _call(lambda: fn(spec.cols[at], container))
     _assert_receiver(ctx, before, f, klass, out)
